@@ -64,7 +64,9 @@ Definition k_long : Z := 10.
 (* the first line of a file that starts with a byte-order mark: linenum is 1 when the test
    `linenum == N` is made.  Stripped, the line is what it is; not stripped, its first byte is
    0xEF: not blank (error_flag is cleared), no directive character, no known directive word -
-   read_next_directive falls through every switch and the line is dropped without a message *)
+   read_next_directive falls through every switch and the line is dropped without a message
+   (a line of two words or more; general_directive refuses a single word as a directive that
+   lacks its argument - the harness puts no mark in front of such a line) *)
 Definition bom_line (r : rd) (l : line) : line :=
   if rd_bom r =? 1 then l else LItem None false None.
 
